@@ -65,7 +65,7 @@ class FastEngine(Engine):
     def c_rvalue(self, fn, s):
         s = s.strip()
         if s.startswith("no_retag "): s = s[9:]
-        m = re.match(r"^(.*) as (.*) \((PointerCoercion|IntToInt|Transmute|PtrToPtr)(.*)\)$", s)
+        m = re.match(r"^(.*) as (.*) \((\w+)(.*)\)$", s)
         if m: return lambda fr: Engine.rvalue(self, fr, s)      # rare: slow path
         if s.startswith(("copy ", "move ", "const ")): return self.c_operand(fn, s)
         if s.startswith("&mut "): return self.c_place(s[5:])
